@@ -112,7 +112,7 @@ CHECKS["C18"] = {
     "rule": "Engine B: the repository sources are rewritten at check time (go build -overlay) so that every mutex, atomic, channel, timer, socket and goroutine-spawn "
             "operation is a scheduling point; for each closed scenario (S1 CreatePermission vs lifetime timer, S2 ChannelBind vs lifetime timer, S3 Refresh vs lifetime timer + re-Allocate, "
             "S4 peer datagram vs Refresh0, S5 permission refresh vs permission timer, S6 channel refresh vs channel timer, S7 Connect/duplicate Connect/Refresh on a TCP allocation, "
-            "S8 Server.Close vs request vs peer datagram, S10 two stream clients on one manager, S11 inbound peer connection to a TCP allocation vs Refresh 0, S12 Server.Close vs Allocate of a stream client with yielding callbacks, S13 a stream client with a bound channel stops reading (the server's writes to it block, simnet models the full window) while its peer sends, then its allocation ends: the other client of the listener is still served; client side: K1 PerformTransaction vs response vs retransmission timer vs Close, K1b two transactions with crossed responses, K6 Close vs the start of a transaction, K7 response as fast as the first write, K8 two concurrent closers of the relayed socket, K9 Client.CreatePermission vs closing the relayed socket, K10 two writers to one bound peer, K11 ReadFrom reporting a timeout vs SetReadDeadline, "
+            "S8 Server.Close vs request vs peer datagram, S10 two stream clients on one manager, S11 inbound peer connection to a TCP allocation vs Refresh 0, S12 Server.Close vs Allocate of a stream client with yielding callbacks, S13 a stream client with a bound channel stops reading (the server's writes to it block, simnet models the full window) while its peer sends, then its allocation ends: the other client of the listener is still served; client side: K1 PerformTransaction vs response vs retransmission timer vs Close, K1b two transactions with crossed responses, K6 Close vs the start of a transaction, K7 response as fast as the first write, K8 two concurrent closers of the relayed socket, K9 Client.CreatePermission vs closing the relayed socket, K10 two writers to one bound peer, K12 response at the final time-out of a transaction, K11 ReadFrom reporting a timeout vs SetReadDeadline, "
             "K2 two WriteTo on one new peer, K3 relayed-socket Close vs WriteTo vs inbound Data indication, K5 ReadFrom vs inbound vs Close, against a scripted TURN server thread; lifecycle callbacks yield) ALL schedules with at most 2 (thorough 3) preemptions are executed "
             "on the real code by prefix replay; timers whose deadline is within 1ms may fire at any point. Verdicts: panic in any thread, deadlock, lock held when its holder exits, "
             "unlock of unlocked mutex, harness thread that must complete but never does. A class is (scenario => sorted verdict set). "
@@ -299,7 +299,7 @@ CHECKS["C12"] = {
             "afterwards a late response for every finished id is delivered and a fresh transaction must still complete (read loop alive), then Close, 10 s of silence, sockets closed, bubble drains. "
             "Fire-and-forget (ignoreResult): RTO x what the caller does with its message afterwards {nothing, a fresh message, msg.Build in place for a second transaction, overwrite msg.Raw} x instant of the reuse "
             "(at once, between transmissions k and k+1) x answers to either transaction: every transmission byte-identical to the request as handed over, on its own timetable, table empty, read loop alive. "
-            "Engine B (sched): K1 response vs retransmission timer vs duplicate vs Close, K1b crossed responses, K6 Close racing the start of a transaction (insert / first write / timer arming / wait), K7 a response that arrives while the sender is still between its first write and the wait, <= 2/3 preemptions. "
+            "Engine B (sched): K1 response vs retransmission timer vs duplicate vs Close, K1b crossed responses, K6 Close racing the start of a transaction (insert / first write / timer arming / wait), K7 a response that arrives while the sender is still between its first write and the wait, K12 a response that arrives at the instant of the transaction's last timer (then a second transaction and Close), <= 2/3 preemptions. "
             "A class is (answer kind, noise, write-error kind, close kind -> observed completion).",
     "parts": [A("single", "./checks/c12", "TestC12Single", budget={"quick": 60, "thorough": 900}),
               A("concurrent", "./checks/c12", "TestC12Concurrent", budget={"quick": 60, "thorough": 900}),
